@@ -104,8 +104,8 @@ MUTANTS = [
      "            import time\n            source.residual_mean = "
      "residual[0] + 0 * time.time()\n", "C03-R7"),
     ("signed integrated-flux error (seed C03c)", "AegeanTools/fitting.py",
-     "    source.err_int_flux = abs(source.int_flux * np.sqrt(sqerr))\n    return source",
-     "    source.err_int_flux = source.int_flux * np.sqrt(sqerr)\n    return source", "C03-R11"),
+     "        source.err_int_flux = abs(source.int_flux * np.sqrt(sqerr))",
+     "        source.err_int_flux = source.int_flux * np.sqrt(sqerr)", "C03-R11"),
 ]
 TWINS = [
     ("stride reordered", "AegeanTools/source_finder.py",
